@@ -11,8 +11,8 @@ the candidate was kept only because its reported `count_bits` is below the verba
 `Residual.ofErrors errors warm o ps` is exactly `6 + choiceCost (errors.map fold) warm o ps`
 (`C13_written_size`). Hence the cost of the chosen partitioning is below `2^22`.
 
-Holds for EVERY oracle log satisfying `OEvent.Ok` (no `LpcFits`: optimality is about the errors that
-`compute_error` returned, whether or not they are the exact residual).
+Holds for EVERY oracle log satisfying `OEvent.Ok` (optimality is about the errors that `compute_error`
+returned; an LPC candidate is only built when its flag is `true`, i.e. they are the exact residual).
 
 Property theorems and non-vacuity examples only; proofs in `FlacVerif/Lemmas/Extras{Cost,C13}.lean`.
 -/
